@@ -111,6 +111,8 @@ pub struct Scenario {
     pub fail_after_term_only: bool,
     /// twin runs only (never generated, never serialised): scripted completions with these seeds are NOT released
     pub withhold: Vec<u64>,
+    /// paced twin only: the completions to deliver, one per round, in this order (None = the script decides)
+    pub forced: Option<Vec<(u64, Outcome)>>,
 }
 
 const SPECS: &[(&str, &[&str])] = &[
@@ -133,7 +135,7 @@ pub fn gen_scenario(rng: &mut Rng, thorough: bool) -> Scenario {
             target: None, sample_size: 1 + rng.below(3) as usize, spec_yaml: spec.to_string(), guess: None,
             script_seed: rng.next(), term_round: None, fail_permille: 0, rej_permille: *rng.pick(&[0, 50, 200]),
             nonfinite_permille: 0, burst_permille: *rng.pick(&[0, 300]), ignore_abort_permille: *rng.pick(&[0, 1000]),
-            pool: rng.below(7) as u8, max_rounds: rounds, fail_after_term_only: false, withhold: vec![],
+            pool: rng.below(8) as u8, max_rounds: rounds, fail_after_term_only: false, withhold: vec![], forced: None,
         };
     }
     if rng.chance(1, 14) {
@@ -145,7 +147,7 @@ pub fn gen_scenario(rng: &mut Rng, thorough: bool) -> Scenario {
             nc: 1 + rng.below(3) as usize, max_eval: None, target: Some(*rng.pick(&[-3.0, -2.0, -4.5])), sample_size: ss,
             spec_yaml: spec.to_string(), guess: None, script_seed: rng.next(), term_round: None, fail_permille: 0,
             rej_permille: *rng.pick(&[0, 50]), nonfinite_permille: 0, burst_permille: *rng.pick(&[0, 300]),
-            ignore_abort_permille: 0, pool: 4, max_rounds: if thorough { 1500 } else { 500 }, fail_after_term_only: false, withhold: vec![],
+            ignore_abort_permille: 0, pool: 4, max_rounds: if thorough { 1500 } else { 500 }, fail_after_term_only: false, withhold: vec![], forced: None,
         };
     }
     if rng.chance(1, 16) {
@@ -155,8 +157,8 @@ pub fn gen_scenario(rng: &mut Rng, thorough: bool) -> Scenario {
         return Scenario {
             nc: 2 + rng.below(5) as usize, max_eval: None, target: None, sample_size: 1, spec_yaml: spec.to_string(), guess: None,
             script_seed: rng.next(), term_round: Some(3 + rng.below(12) as usize), fail_permille: *rng.pick(&[300, 700]), rej_permille: 100,
-            nonfinite_permille: *rng.pick(&[0, 200]), burst_permille: *rng.pick(&[0, 300]), ignore_abort_permille: 1000, pool: rng.below(7) as u8,
-            max_rounds: 80, fail_after_term_only: true, withhold: vec![],
+            nonfinite_permille: *rng.pick(&[0, 200]), burst_permille: *rng.pick(&[0, 300]), ignore_abort_permille: 1000, pool: rng.below(8) as u8,
+            max_rounds: 80, fail_after_term_only: true, withhold: vec![], forced: None,
         };
     }
     let nc = 1 + rng.below(8) as usize;
@@ -168,10 +170,10 @@ pub fn gen_scenario(rng: &mut Rng, thorough: bool) -> Scenario {
         3..=5 => Some(rng.below(12) as usize),
         _ => Some(rng.below(nmax) as usize),
     };
-    let pool = rng.below(7) as u8;
+    let pool = rng.below(8) as u8;
     let sample_size = match rng.below(10) { 0..=4 => 1, 5..=6 => 2, 7..=8 => 3, _ => 4 };
     let target = if rng.chance(1, 3) {
-        Some(match pool { 0 | 4 | 5 | 6 => rng.range(-6, 6) as f64, 1 => (rng.range(-3, 3) as f64) * 1e299, 2 => -(rng.below(60) as f64), _ => rng.below(60) as f64 })
+        Some(match pool { 0 | 4 | 5 | 6 | 7 => rng.range(-6, 6) as f64, 1 => (rng.range(-3, 3) as f64) * 1e299, 2 => -(rng.below(60) as f64), _ => rng.below(60) as f64 })
     } else { None };
     let (spec, guesses) = SPECS[rng.below(SPECS.len() as u64) as usize];
     let guess = if rng.chance(1, 4) { Some(serde_json::from_str(*rng.pick(guesses)).unwrap()) } else { None };
@@ -187,7 +189,7 @@ pub fn gen_scenario(rng: &mut Rng, thorough: bool) -> Scenario {
         nonfinite_permille: *rng.pick(&[0, 0, 0, 10, 50]),
         burst_permille: *rng.pick(&[0, 200, 600]),
         ignore_abort_permille: *rng.pick(&[0, 0, 500, 1000]),
-        pool, max_rounds, fail_after_term_only: false, withhold: vec![],
+        pool, max_rounds, fail_after_term_only: false, withhold: vec![], forced: None,
     }
 }
 
@@ -217,7 +219,7 @@ pub fn scenario_from_json(j: &J) -> Scenario {
         burst_permille: u("burstPermille"), ignore_abort_permille: u("ignoreAbortPermille"), pool: u("pool") as u8,
         max_rounds: u("maxRounds") as usize,
         fail_after_term_only: j["failAfterTermOnly"].as_bool().unwrap_or(false),
-        withhold: vec![],
+        withhold: vec![], forced: None,
     }
 }
 
@@ -229,6 +231,8 @@ fn gen_value(rng: &mut Rng, pool: u8, counter: u64) -> f64 {
         3 => counter as f64,
         5 => 1.0,                                                       // plateau: every result ties
         6 => if rng.chance(9, 10) { 1.0 } else { 2.0 + counter as f64 }, // plateau with occasional worse results
+        // gradual underflow: subnormal and tiny objective values (accepted like any other finite value), signed zeros
+        7 => *rng.pick(&[5e-324, -5e-324, 1e-310, -3e-320, 2.5e-308, -2.5e-308, f64::MIN_POSITIVE, 1e-300, -1e-300, 0.0, -0.0, 1.0, -1.0]),
         _ => rng.range(-50, 50) as f64 / 8.0,
     }
 }
@@ -279,6 +283,8 @@ pub fn run_scenario(sc: &Scenario, sh: Arc<Mutex<Shared>>) -> J {
         let mut counter = 0u64;
         let mut round = 0usize;
         let mut terminated = 0u32;
+        let mut delivered: Vec<J> = Vec::new();    // (seed, outcome) of every completion the controller took, in order
+        let mut forced_pos = 0usize;
         let mut released: Vec<u64> = Vec::new();   // accept/reject completions released by the script, in release order
         let mut held: Vec<Slot> = Vec::new();      // twin run: completions that are withheld stay in flight for ever
         loop {
@@ -314,8 +320,8 @@ pub fn run_scenario(sc: &Scenario, sh: Arc<Mutex<Shared>>) -> J {
             let mut items_j = Vec::new();
             for (id, seed, val) in &items {
                 let res = match pending.remove(seed) {
-                    Some(Outcome::Acc(x)) => { let l = samples.entry(*id).or_default(); l.push(x); json!({"acc": [order_code(x), order_code(mean_like_impl(l))]}) }
-                    Some(Outcome::Rej) => { samples.remove(id); json!("rej") }
+                    Some(Outcome::Acc(x)) => { delivered.push(json!([seed, x.to_bits()])); let l = samples.entry(*id).or_default(); l.push(x); json!({"acc": [order_code(x), order_code(mean_like_impl(l))]}) }
+                    Some(Outcome::Rej) => { delivered.push(json!([seed, "rej"])); samples.remove(id); json!("rej") }
                     other => json!({"unexpectedItem": format!("{other:?}")}),
                 };
                 evs.push(json!({"k": "c", "seed": seed, "res": res}));
@@ -332,18 +338,30 @@ pub fn run_scenario(sc: &Scenario, sh: Arc<Mutex<Shared>>) -> J {
                 g.phase = format!("round {round}");
             }
             if result.is_some() { break; }
-            if round >= sc.max_rounds && terminated == 0 {
+            if round >= sc.max_rounds && terminated == 0 && sc.forced.is_none() {
                 // out of script: end the run with a terminate so that it returns
                 cmd_tx.send(Command::Terminate).await.unwrap();
                 events.push(json!({"k": "a"}));
                 terminated += 1; round += 1; continue;
             }
-            if round > sc.max_rounds + 5000 { break; }
+            if round > sc.max_rounds + 5000 && sc.forced.is_none() { break; }
             if Some(round) == sc.term_round && terminated == 0 {
                 cmd_tx.send(Command::Terminate).await.unwrap();
                 events.push(json!({"k": "a"}));
                 terminated += 1;
                 if rng.chance(1, 5) { cmd_tx.send(Command::Terminate).await.unwrap(); }
+                round += 1; continue;
+            }
+            if let Some(forced) = &sc.forced {
+                // paced twin: exactly the next completion of the given sequence, alone in its round
+                if forced_pos >= forced.len() { sh2.lock().unwrap().rounds.push(json!({"forcedExhausted": true})); break; }
+                let (seed, o) = forced[forced_pos].clone();
+                forced_pos += 1;
+                let mut g = sh2.lock().unwrap();
+                match g.slots.iter().position(|s| s.seed == seed) {
+                    Some(k) => { let mut slot = g.slots.remove(k); released.push(seed); pending.insert(seed, o.clone()); slot.tx.take().unwrap().send(o).ok(); }
+                    None => { g.rounds.push(json!({"forcedMissing": seed})); break; }
+                }
                 round += 1; continue;
             }
             // choose the next stimulus: one failure alone, or a burst of accept/reject completions
@@ -386,7 +404,8 @@ pub fn run_scenario(sc: &Scenario, sh: Arc<Mutex<Shared>>) -> J {
         // completions that were released (the evaluation had finished) but never taken by the controller
         let undelivered: Vec<u64> = released.iter().filter(|s| pending.contains_key(s)).cloned().collect();
         drop(held);
-        json!({"maxInflight": g.max_inflight, "dupInflight": g.dup_inflight, "undelivered": undelivered, "returned": result.is_some()})
+        json!({"maxInflight": g.max_inflight, "dupInflight": g.dup_inflight, "undelivered": undelivered, "returned": result.is_some(),
+               "delivered": delivered, "terminates": terminated})
     });
     let g = sh.lock().unwrap();
     let mut line = json!({"mode": "ctl", "cfg": g.header, "rounds": g.rounds, "stats": ret});
@@ -408,6 +427,29 @@ pub fn run_scenario_twin(sc: &Scenario, sh: Arc<Mutex<Shared>>) -> J {
         let last = |l: &J| l["rounds"].as_array().and_then(|r| r.last()).map(|r| r["obs"]["ret"].clone()).unwrap_or(J::Null);
         let items = |l: &J| -> Vec<J> { l["rounds"].as_array().map(|r| r.iter().flat_map(|x| x["obs"]["items"].as_array().cloned().unwrap_or_default()).collect()).unwrap_or_default() };
         line["twin"] = json!({"withheld": und, "retA": last(&line), "retB": last(&l2), "sameDelivered": items(&line) == items(&l2)});
+    }
+    // paced twin: a run that ended by itself (budget or target; no termination request, no failure) is repeated with
+    // the SAME completions in the SAME order, but one per controller round instead of in bursts.  Same inputs, same
+    // results in the same order: the evaluations started (ids, seeds, parameter sets) and the report must be the same
+    // (evaluations queued in the very last pass may never have begun, so one start sequence may be a prefix of the other).
+    let bursty = line["rounds"].as_array().map(|r| r.iter().any(|x| x["obs"]["items"].as_array().map(|i| i.len() > 1).unwrap_or(false))).unwrap_or(false);
+    if bursty && sc.forced.is_none() && sc.withhold.is_empty() && line["stats"]["returned"] == json!(true) && line["stats"]["terminates"] == json!(0)
+        && sc.fail_permille == 0 && sc.nonfinite_permille == 0 && line.get("stuck").is_none() {
+        let seq: Vec<(u64, Outcome)> = line["stats"]["delivered"].as_array().cloned().unwrap_or_default().iter().map(|d| {
+            (d[0].as_u64().unwrap(), match d[1].as_u64() { Some(b) => Outcome::Acc(f64::from_bits(b)), None => Outcome::Rej })
+        }).collect();
+        let mut sc3 = sc.clone();
+        sc3.forced = Some(seq);
+        sc3.term_round = None;
+        let l3 = run_scenario(&sc3, Arc::new(Mutex::new(Shared::default())));
+        let last = |l: &J| l["rounds"].as_array().and_then(|r| r.iter().rev().find_map(|r| r.get("obs").map(|o| o["ret"].clone()))).unwrap_or(J::Null);
+        let flat = |l: &J, k: &str| -> Vec<J> { l["rounds"].as_array().map(|r| r.iter().flat_map(|x| x["obs"][k].as_array().cloned().unwrap_or_default()).collect()).unwrap_or_default() };
+        let (sa, sb) = (flat(&line, "starts"), flat(&l3, "starts"));
+        let m = sa.len().min(sb.len());
+        let first_diff = (0..m).find(|i| sa[*i] != sb[*i]);
+        line["paced"] = json!({"retA": last(&line), "retB": last(&l3), "sameDelivered": flat(&line, "items") == flat(&l3, "items"),
+                               "startsAgree": first_diff.is_none(), "firstDiff": first_diff.map(|i| json!({"index": i, "bursts": sa[i], "paced": sb[i]})),
+                               "nStarts": [sa.len(), sb.len()], "returnedB": l3["stats"]["returned"]});
     }
     line
 }
